@@ -38,6 +38,13 @@ def evalC10 (ins outs : List String) : Verdict :=
         if m.1.tag != implTag then .corr "reply" m.1.tag implTag
         else if m.2 != reads then .corr "reads" (toString m.2) (toString reads)
         else .ok (match m.1 with | .ok hs => if hs.length == amount then "ok-full" else "ok-partial" | .notFound => "NF" | .reset => "reset")
+    else if kind == "moving" then
+      -- the head moved from head0 to head during the request: the reply must be right for one of the two stores,
+      -- and bounded in any case
+      match c10_ok tail head origin amount end_ reply reads (slow == 1), (kvNat? ins "head0").map (fun h0 => c10_ok tail h0 origin amount end_ reply reads (slow == 1)) with
+      | none, _ => .ok "moving"
+      | _, some none => .ok "moving"
+      | some c, _ => .prop c s!"moving head: end={end_} reply={reply} reads={reads}"
     else if kind == "hash" then
       if end_ == "eof" && reply == toString origin && reads ≤ 1 then .ok "hash" else .prop "c10_hash" s!"end={end_} reply={reply}"
     else if kind == "noData" || kind == "hashEmpty" then
